@@ -87,6 +87,28 @@ Theorem C16_krum_neighbourhood : forall G nc i, (i < length G)%nat ->
 Proof. exact krum_scores_of_gramian. Qed.
 Print Assumptions C16_krum_neighbourhood.
 
+(* ---- Krum looks at DIFFERENCES of rows only: adding one vector to every row (workers' gradients around a
+   common mean, however large) changes neither the distances nor the selection, and moves the result by that
+   vector.  (The harness runs Krum on float64 rows 2^30 + small deviations, which float32 cannot tell apart.) ---- *)
+From TJ.proofs Require Import KrumTranslate.
+Theorem C16_krum_translation_invariant_selection : forall J v n f k,
+  Forall (fun r => length r = n) J -> length v = n ->
+  krum_distances RN (gram RN (translate v J)) = krum_distances RN (gram RN J) /\
+  krum_weights_of_dist RN (krum_distances RN (gram RN (translate v J))) f k =
+  krum_weights_of_dist RN (krum_distances RN (gram RN J)) f k.
+Proof.
+  intros J v n f k HJ Hv. split;
+    [exact (krum_distances_translate J v n HJ Hv) | exact (krum_weights_translate J v n f k HJ Hv)].
+Qed.
+Print Assumptions C16_krum_translation_invariant_selection.
+
+Theorem C16_krum_translation_equivariant : forall J v n f k, J <> [] ->
+  Forall (fun r => length r = n) J -> length v = n -> (1 <= k)%nat ->
+  agg_krum RN f k (translate v J) =
+  match agg_krum RN f k J with Ok a => Ok (vadd RN a v) | Err e => Err e end.
+Proof. exact agg_krum_translate. Qed.
+Print Assumptions C16_krum_translation_equivariant.
+
 (* ---- instance gap (added): the executed TrimmedMean model maps to the real one ---- *)
 From Coq Require Import QArith Qreals.
 From TJ Require Import NumQ.
